@@ -7,6 +7,7 @@ import Iota.Gen.Pow
 import Iota.Tie.Expect
 import Iota.Model.Pow
 import Iota.Tie.PowCode
+import Iota.Tie.PowV2Code
 import Iota.Proofs.Vectors.Curl
 import Iota.Proofs.Vectors.Hash
 
@@ -32,7 +33,8 @@ theorem tritToUint_eq :
     (Gen.Pow.tritToUint (BitVec.ofInt 8 1)).toNat = Pow.tritToUint 1 := by decide
 
 /-- v1 `checkStateTrits` is not pinned by text any more: it is translated as code and tied to the model for all
-inputs in `Iota/Tie/PowCode.lean`. -/
+inputs in `Iota/Tie/PowCode.lean`; neither are v2 `sufficientTrailingZeros`, `targetHash`, `tritToUint`, `toInt` and
+`stateToInt` (stage 14, `Iota/Tie/PowV2Code.lean`). -/
 theorem src :
     Gen.Pow.src_pow_Score = Expect.Pow_src_pow_Score ∧
     Gen.Pow.src_pow_trailingZeros = Expect.Pow_src_pow_trailingZeros ∧
@@ -43,17 +45,12 @@ theorem src :
     Gen.Pow.src_v2_Score = Expect.Pow_src_v2_Score ∧
     Gen.Pow.src_v2_difficulty = Expect.Pow_src_v2_difficulty ∧
     Gen.Pow.src_v2_encodeNonce = Expect.Pow_src_v2_encodeNonce ∧
-    Gen.Pow.src_v2_toInt = Expect.Pow_src_v2_toInt ∧
-    Gen.Pow.src_v2_tritToUint = Expect.Pow_src_v2_tritToUint ∧
     Gen.Pow.src_v2_hexToInt = Expect.Pow_src_v2_hexToInt ∧
     Gen.Pow.src_v2_New = Expect.Pow_src_v2_New ∧
     Gen.Pow.src_v2_Worker_Mine = Expect.Pow_src_v2_Worker_Mine ∧
-    Gen.Pow.src_v2_sufficientTrailingZeros = Expect.Pow_src_v2_sufficientTrailingZeros ∧
-    Gen.Pow.src_v2_targetHash = Expect.Pow_src_v2_targetHash ∧
     Gen.Pow.src_v2_Worker_worker = Expect.Pow_src_v2_Worker_worker ∧
-    Gen.Pow.src_v2_checkStateTrits = Expect.Pow_src_v2_checkStateTrits ∧
-    Gen.Pow.src_v2_stateToInt = Expect.Pow_src_v2_stateToInt :=
-  ⟨rfl, rfl, rfl, rfl, rfl, rfl, rfl, rfl, rfl, rfl, rfl, rfl, rfl, rfl, rfl, rfl, rfl, rfl, rfl⟩
+    Gen.Pow.src_v2_checkStateTrits = Expect.Pow_src_v2_checkStateTrits :=
+  ⟨rfl, rfl, rfl, rfl, rfl, rfl, rfl, rfl, rfl, rfl, rfl, rfl, rfl, rfl⟩
 
 /-- everything else the package declares (imports, constants, types, variables, build constraints and the functions not
 pinned one by one) is unchanged too: no declaration of the modelled packages can change without a tie theorem failing. -/
@@ -71,5 +68,34 @@ theorem code_checkStateTrits_v1 (l h : Pow.Planes) (n : Nat) (hn : n ≤ 243) :
 `worker` panics on such an n before getting here, and `Mine` no longer produces one: fix F9) -/
 theorem code_checkStateTrits_v1_large (l h : List (BitVec 64)) (n : BitVec 64) (hn : 243 < n.toNat) :
     Gen.Pow.v1.checkStateTrits l h n = some 0#64 := Iota.Tie.PowCode.checkStateTrits_large l h n hn
+
+/-! ### v2 `sufficientTrailingZeros` and `targetHash` translated AS CODE (stage 14: division by a non-constant, `panic`,
+a three-clause loop with two init variables and an early return, `big.Int` SetUint64 / Mul / Add / Quo, the package-level
+constants `one` and `maxHash = hexToInt("…")`) = the model, for all inputs, the panic included (proofs: `Iota/Tie/PowV2Code.lean`). -/
+theorem code_sufficientTrailingZeros_v2_panic (data : List (BitVec 8)) (t : BitVec 64) (hlen : data.length < 2 ^ 62)
+    (hov : 2 ^ 64 ≤ (data.length + 8) * t.toNat) :
+    Gen.Pow.v2code.sufficientTrailingZeros data t = none :=
+  Iota.Tie.PowV2Code.sufficientTrailingZeros_panic data t hlen hov
+theorem code_sufficientTrailingZeros_v2 (data : List (BitVec 8)) (t : BitVec 64) (hlen : data.length < 2 ^ 62)
+    (hov : (data.length + 8) * t.toNat < 2 ^ 64) :
+    Gen.Pow.v2code.sufficientTrailingZeros data t =
+      some (BitVec.ofNat 64 (Pow.sufficientTrailingZeros ((data.length + 8) * t.toNat))) :=
+  Iota.Tie.PowV2Code.sufficientTrailingZeros_eq data t hlen hov
+theorem code_targetHash_v2 (data : List (BitVec 8)) (t : BitVec 64) (hlen : data.length < 2 ^ 62) :
+    Gen.Pow.v2code.targetHash data t = some ((Pow.targetHash ((data.length + 8) * t.toNat) : Nat) : Int) :=
+  Iota.Tie.PowV2Code.targetHash_eq data t hlen
+
+/-- v2 `toInt` (and its callee `tritToUint`) AS CODE: a `[]int8` of 243 balanced trits ↦ the model's value, no panic, no
+wrap-around of the uint64 chunk values (`PowV2Code.chunk_loop`: each stays below 3^40); any other length panics -/
+theorem code_toInt_v2 (trits : List (BitVec 8)) (hlen : trits.length = 243)
+    (htr : ∀ t ∈ trits, t = BitVec.ofInt 8 (-1) ∨ t = 0#8 ∨ t = 1#8) :
+    Gen.Pow.v2code.toInt trits = some ((Pow.toInt (trits.map BitVec.toInt) : Nat) : Int) :=
+  Iota.Tie.PowV2Code.toInt_eq trits hlen htr
+theorem code_toInt_v2_panic (trits : List (BitVec 8)) (hlen : trits.length ≠ 243) (hlt : trits.length < 2 ^ 64) :
+    Gen.Pow.v2code.toInt trits = none := Iota.Tie.PowV2Code.toInt_panic trits hlen hlt
+/-- v2 `stateToInt` AS CODE = the model's `stateToInt`, for all planes and every lane index below 64 -/
+theorem code_stateToInt_v2 (l h : Pow.Planes) (idx : Nat) (hidx : idx < 64) :
+    Gen.Pow.v2code.stateToInt l.toList h.toList (BitVec.ofNat 64 idx) = some ((Pow.stateToInt l h idx : Nat) : Int) :=
+  Iota.Tie.PowV2Code.stateToInt_eq l h idx hidx
 
 end Iota.Tie.Pow
